@@ -191,3 +191,11 @@ Print Assumptions C08_alias_reachable_invariant.
 Print Assumptions C08_alias_dropdeltas_when_clean.
 Print Assumptions C08_alias_rid_returns_pending_object.
 Print Assumptions C08_alias_dropdeltas_does_not_roll_back.
+Print Assumptions C08_alias_abs_coherent.
+Print Assumptions C08_alias_shadowed_cache_entry.
+Print Assumptions C08_alias_cleanb.
+Print Assumptions C08_alias_unrecorded_mutation_refuted.
+Print Assumptions C08_alias_handle_across_dropcache_harmless.
+Print Assumptions C08_alias_two_holders_refuted.
+Print Assumptions C08_alias_cache_and_deltas_may_differ.
+Print Assumptions C08_alias_shared_object_refuted.
